@@ -410,19 +410,16 @@ class SimClient:
                 if req['method'] == 'blockchain.scripthash.subscribe':
                     sh = req['params'][0]
                     self.subscribed.add(sh)
-                    # a notification that overtook the reply is newer than the reply
-                    self.sub_status.setdefault(sh, (ev, rec['result']))
-                    cur = self.sub_status[sh]
-                    if cur[0] < req['ev']:
-                        self.sub_status[sh] = (ev, rec['result'])
+                    # what the client holds is what arrived last (TCP keeps the order of sending): a reply that
+                    # comes after a notification replaces it, as in a real client
+                    self.sub_status[sh] = (ev, rec['result'])
                 elif req['method'] == 'blockchain.scripthash.unsubscribe':
                     sh = req['params'][0]
                     self.subscribed.discard(sh)
                     self.sub_status.pop(sh, None)
                 elif req['method'] == 'blockchain.headers.subscribe':
                     self.headers_subscribed = True
-                    if self.header is None or self.header[0] < req['ev']:
-                        self.header = (ev, rec['result'])
+                    self.header = (ev, rec['result'])
             if self.on_any_reply is not None:
                 self.on_any_reply(self, req, rec)
             cb = self.on_reply.pop(rid, None)
